@@ -28,6 +28,7 @@ mod vardct;
 /// Verification hooks (only with `--cfg jxl_oxide_verif`).
 #[cfg(jxl_oxide_verif)]
 pub mod verif {
+    pub use crate::state::verif_sched::*;
     pub use crate::vardct::verif_transform::*;
 }
 
